@@ -53,6 +53,39 @@ def comment_list(comment: None | str | list[str]):
     return [f"-- {line}" for c in comment for line in (str(c).splitlines() or [""])]
 
 
+def _write_numeric_operands(
+    scope: VhdlScope, lhs: Expression, rhs: Expression, wrap_negative: bool
+):
+    """
+    Returns the text of both operands of an arithmetic or comparison operator.
+
+    numeric_std only combines unsigned vectors with operands of the subtype NATURAL.
+    Negative integer constants are converted to the width of the
+    vector operand (the same number modulo 2**width) or rejected.
+    """
+
+    texts = []
+
+    for operand, other in ((lhs, rhs), (rhs, lhs)):
+        value = operand.result
+        other_value = TypeQualifier.decay(other.result)
+
+        if (
+            isinstance(value, int)
+            and not isinstance(value, bool)
+            and value < 0
+            and isinstance(other_value, Unsigned)
+        ):
+            assert (
+                wrap_negative
+            ), f"the negative integer {value} cannot be combined with an unsigned value in this operation"
+            texts.append(str(value % 2**other_value.width))
+        else:
+            texts.append(operand.write(scope))
+
+    return texts
+
+
 class Statement:
     def write(self, scope: VhdlScope) -> TextBlock | str:
         # return TextBlock or str without indentation
@@ -203,8 +236,9 @@ class Compare(Expression):
 
     def write(self, scope: VhdlScope):
         op = Compare.operator_string[self._op]
+        lhs, rhs = _write_numeric_operands(scope, self._lhs, self._rhs, False)
 
-        return f"({self._lhs.write(scope)} {op} {self._rhs.write(scope)})"
+        return f"({lhs} {op} {rhs})"
 
 
 class All(Expression):
@@ -294,7 +328,17 @@ class BinOp(Expression):
                 self._rhs.result = self._rhs.result.bitvector
 
         op = BinOp.operator_string[self._op]
-        return f"({self._lhs.write(scope)}) {op} ({self._rhs.write(scope)})"
+
+        # the results of +, - and * only depend on the integer modulo 2**width
+        lhs, rhs = _write_numeric_operands(
+            scope,
+            self._lhs,
+            self._rhs,
+            self._op
+            in (BinOp.Operator.ADD, BinOp.Operator.SUB, BinOp.Operator.MUL),
+        )
+
+        return f"({lhs}) {op} ({rhs})"
 
 
 class UnaryOp(Expression):
